@@ -157,7 +157,7 @@ type c39sFixtures struct {
 	stampLess []byte
 }
 
-const c39sWatchdog = 30 * time.Second
+const c39sWatchdog = 120 * time.Second
 
 // c39sHung is set once a constructor hung: the rest of the enumeration is abandoned
 // (every further case with enough files would wait for the watchdog again).
